@@ -15,7 +15,7 @@ RULE = ("AnkoChan (producer -> 0..k worker goroutines -> consumer over Go channe
 
 def pipe_configs(ctx, emitted):
     out = []
-    modes = ["range", "recvexpr", "recvok"]
+    modes = ["range", "recvexpr", "recvok", "recvokout"]
     elems = ["int64", "interface", "float64"]
     for e in emitted:
         for mode in modes:
@@ -28,7 +28,7 @@ def pipe_configs(ctx, emitted):
                     out.append({"ns": e["ns"], "cap": e["cap"], "items": e["items"], "expected": e["expected"], "mode": mode, "elem": elem, "goargs": goargs, "shape": ""})
                 if elem == "int64" and mode == "range" and e["ns"] >= 1:
                     # the stages share one function value that takes its arguments the other ways a script function can (5 parameters, variadic)
-                    for shape in ("fn5", "fnvar", "fn4elem", "fn4spread", "goanon"):
+                    for shape in ("fn5", "fnvar", "fnvarspread", "fn4elem", "fn4spread", "goanon"):
                         out.append({"ns": e["ns"], "cap": e["cap"], "items": e["items"], "expected": e["expected"], "mode": mode, "elem": elem, "goargs": False, "shape": shape})
                     for shape in ("fn5", "fnvar"):
                         out.append({"ns": e["ns"], "cap": e["cap"], "items": e["items"], "expected": e["expected"], "mode": mode, "elem": elem, "goargs": True, "shape": shape})
@@ -36,7 +36,7 @@ def pipe_configs(ctx, emitted):
     # blocked on the main script until it starts consuming) -- more than 4 x GOMAXPROCS of them for every GOMAXPROCS used
     for ns in (5, 6, 9, 70):
         for cap_ in (0, 1):
-            for shape in ("", "fn5", "fnvar", "fn4elem", "fn4spread", "goanon"):
+            for shape in ("", "fn5", "fnvar", "fnvarspread", "fn4elem", "fn4spread", "goanon"):
                 items = [1, 2, 3]
                 out.append({"ns": ns, "cap": cap_, "items": items, "expected": [v + 10 * ns for v in items], "mode": "range", "elem": "int64", "goargs": False, "shape": shape})
     # fan-out (spec/AnkoChanFan.tla): several workers range over ONE channel; every item exactly once, in any order
